@@ -18,6 +18,7 @@ import OFV.Proofs.C06Matvec
 import OFV.Proofs.C06Ladder
 import OFV.Proofs.C06JW
 import OFV.Proofs.C06Assembly
+import OFV.Proofs.C06Boson
 
 namespace OFV.C06
 open OFV OFV.Spec OFV.Spec.C06 OFV.Model OFV.Model.C06 OFV.Proofs.C06
@@ -310,5 +311,37 @@ theorem parallel_any_order (k : Nat) (a : List (List (Nat × Nat) × GQ)) (x : L
   exact reduceAdd_perm _ (h.map _)
 
 example : [2, 0, 1].Perm [0, 1, 2] := by decide
+
+/-! ### truncated bosonic matrices -/
+
+/-- `boson_term_sound`, PARTIAL (no square roots, cut-off not reached).  Full statement (open): the
+matrix returned by `boson_operator_sparse(op, trunc)` is the product of the truncated ladder matrices,
+`Σ_terms c · ⟨m| t |n⟩` with `b†|n⟩ = √(n+1)|n+1⟩` cut at `trunc`.
+Proved: the Model's column of a ladder word keeps the amplitude as `√R`; whenever the word does not hit
+the cut-off (`foldr bstep = some (ds, R)`), the polynomial representation of the Spec (`b† = x·`,
+`b = ∂`) applied to the monomial with the same occupation numbers is defined, reaches the occupation
+numbers `ds`, and its integer coefficient `K` satisfies `K² · Π n_out! = R · Π n_in!` — the Model
+entry `√R` is the Spec coefficient conjugated by `diag(√n!)` (Fock normalisation `|n⟩ = x^n/√n!`).
+Open: the cut-off itself, the mixed-radix index arithmetic (`digitsOf` / `indexOf`), the sum over
+terms with floating-point square roots, and the QuadOperator route. -/
+theorem boson_term_sound_partial (trunc : Nat) (t : List (Nat × Nat)) (ds0 : List Nat) (e0 : Spec.Mono)
+    (hagree : ∀ m, Spec.expGet e0 m = ds0.getD m 0) (ht : ∀ f ∈ t, f.1 < ds0.length ∧ f.2 ≤ 1)
+    (ds : List Nat) (R : Nat) (h : t.foldr (Proofs.C06B.bstep trunc) (some (ds0, 1)) = some (ds, R)) :
+    ∃ (K : Nat) (e : Spec.Mono), Spec.actTermWith Spec.actB t e0 = some (GQ.ofInt K, e) ∧
+      (∀ m, Spec.expGet e m = ds.getD m 0) ∧ ds.length = ds0.length ∧
+      K * K * Proofs.C06B.wfact ds = R * Proofs.C06B.wfact ds0 :=
+  Proofs.C06B.boson_word_sound trunc t ds0 e0 hagree ht ds R h
+
+/-- the Model's `bosonTermColumn` is that fold on the big-endian digits of the column index -/
+theorem boson_term_column_eq (trunc nModes : Nat) (t : List (Nat × Nat)) (col : Nat) :
+    bosonTermColumn trunc nModes t col =
+      (t.foldr (Proofs.C06B.bstep trunc) (some (digitsOf trunc nModes col, 1))).map
+        fun s => (indexOf trunc s.1, s.2) :=
+  Proofs.C06B.bosonTermColumn_eq trunc nModes t col
+
+example : bosonTermColumn 4 1 [(0, 1), (0, 1), (0, 0)] 2 = some (3, 12) ∧
+    Spec.actTermWith Spec.actB [(0, 1), (0, 1), (0, 0)] [2] = some (GQ.ofInt 2, [3]) ∧
+    2 * 2 * Proofs.C06B.wfact [3] = 12 * Proofs.C06B.wfact [2] := by
+  refine ⟨by decide, by decide +kernel, by decide⟩
 
 end OFV.C06
